@@ -191,6 +191,37 @@ def siddSegOk (pt : SiddPixel) (s : ImgSeg) : Bool :=
 def siddWriterSeg (pt : SiddPixel) (rows cols : Nat) : ImgSeg :=
   ⟨"SAR", (siddExpect pt).2, (siddExpect pt).1, [], rows, cols⟩
 
+/-! ### the DES scan of `check_sicd_file` / `check_sidd_file` (which data extension carries the product XML) -/
+
+inductive DesKind
+  | sicdXml    -- XML_DATA_CONTENT DES whose document root is SICD
+  | siddXml    -- XML_DATA_CONTENT DES whose document root is SIDD
+  | otherXml   -- XML_DATA_CONTENT DES that carries another XML document
+  | other      -- any other DES (user defined, TRE overflow, …): skipped
+  | oldSicd    -- deprecated `SICD_XML` DES
+  | oldSidd    -- deprecated `SIDD_XML` DES
+deriving DecidableEq, Repr
+
+/-- `check_data_extension_headers` (sicd_consistency.py:214-261): the positions of the SICD DES, `none` when a SIDD DES is met
+    (`raise ValueError('… should be a SIDD file')`).  Every DES is looked at: a DES that is not XML is skipped (`continue`) -/
+def sicdScanFrom : Nat → List DesKind → Option (List Nat)
+  | _, [] => some []
+  | i, .sicdXml :: r => (sicdScanFrom (i + 1) r).map (i :: ·)
+  | i, .oldSicd :: r => (sicdScanFrom (i + 1) r).map (i :: ·)
+  | _, .siddXml :: _ => none
+  | _, .oldSidd :: _ => none
+  | i, .otherXml :: r => sicdScanFrom (i + 1) r
+  | i, .other :: r => sicdScanFrom (i + 1) r
+
+/-- the index of THE SICD DES; `none` = the checker raises (no SICD DES, several of them, or a SIDD DES) -/
+def sicdScan (des : List DesKind) : Option Nat :=
+  match sicdScanFrom 0 des with
+  | some [i] => some i
+  | _ => none
+
+/-- `find_des` (sidd_consistency.py): a file is examined as a SIDD when at least one DES has a SIDD root -/
+def siddFound (des : List DesKind) : Bool := des.any (fun k => k == .siddXml || k == .oldSidd)
+
 /-! ### the documented shape of the translated rules (message kind, guards), transcribed at the pinned commit -/
 
 def severities : List (String × String) :=
